@@ -708,6 +708,13 @@ def check_writer_exit(ctx, repo):
 def check_setup(ctx, repo):
     rel, name = SETUP
     func = repo.func(rel, name)
+    # module-level suffix constants read like the literals they stand for
+    from ..normalize import _cp, fold_constants
+    from ..core import link
+    orig = func
+    func = fold_constants(repo, rel, _cp(orig))
+    link(func)
+    func.parent = getattr(orig, "parent", None)
     params = [a.arg for a in func.args.args]
     if params[:2] != ["paths_in", "paths_out"]:
         raise AnalysisError("setup_task_paths signature changed: " +
